@@ -294,6 +294,29 @@ type Builder struct {
 	inputs     []string          // names worth printing from a model
 	strLits    map[string]string // string literal -> const name
 	strLitList []string
+	memo       map[string]Term // hash-consing of shared subterms (Share)
+	prefix     string
+	defs       map[string]string // define-fun name -> body (for symbol extraction)
+}
+
+// Share names a (ground) term once per builder, so that repeated subterms are emitted once.
+func (b *Builder) Share(t Term) Term {
+	if len(t.S) < 48 {
+		return t
+	}
+	if b.memo == nil {
+		b.memo = map[string]Term{}
+	}
+	if n, ok := b.memo[t.S]; ok {
+		return n
+	}
+	hint := "s"
+	if strings.Contains(t.S, "sk_h") || strings.Contains(t.S, "g1_") {
+		hint = "g1_s" // mentions a hypothesis skolem: generation 1 (see quant instantiation limits)
+	}
+	n := b.Def(b.prefix+hint, t)
+	b.memo[t.S] = n
+	return n
 }
 
 func NewBuilder() *Builder {
@@ -350,6 +373,10 @@ func (b *Builder) Def(hint string, t Term) Term {
 	b.n++
 	name := fmt.Sprintf("%s!%d", sanitize(hint), b.n)
 	b.lines = append(b.lines, fmt.Sprintf("(define-fun %s () %s %s)", name, t.Sort, t.S))
+	if b.defs == nil {
+		b.defs = map[string]string{}
+	}
+	b.defs[name] = t.S
 	return Term{name, t.Sort}
 }
 
